@@ -127,6 +127,7 @@ class MiniInterp:
         self.prj, self.hook = prj, hook
         self.steps, self.max_steps, self.max_depth = 0, max_steps, max_depth
         self.depth = 0
+        self.terms: dict = {}      # uninterpreted terms by name (linear forms refer to them by name)
 
     # ------------------------------------------------------------------ entry
     def call(self, fi: FuncInfo, args: list, kwargs: dict | None = None, self_obj=None):
@@ -318,6 +319,12 @@ class MiniInterp:
         return ("sym", k.uid) if isinstance(k, Sym) else k
 
     def truth(self, v):
+        if isinstance(v, (Sym, Lin)) and self.hook:
+            r = self.hook(self, "truth", v, None, None, None, None)
+            if r is not NotImplemented:
+                return r
+        if isinstance(v, Lin):
+            raise Unknown("truth value of a symbolic number")
         if isinstance(v, (Sym, Closure, BoundFunc)):
             return True
         try:
@@ -332,6 +339,8 @@ class MiniInterp:
             return list(v.keys())
         if isinstance(v, _Iter):
             return v.rest()
+        if isinstance(v, Sym) and getattr(v, "tuple_order", None):
+            return [v.fields[k] for k in v.tuple_order]
         raise Unknown(f"iteration over {type(v).__name__}")
 
     def binop(self, op, a, b, node):
@@ -344,7 +353,7 @@ class MiniInterp:
                     return lb.scale(la.const).simplify()
                 if not lb.terms:
                     return la.scale(lb.const).simplify()
-            raise Unknown(f"non-linear arithmetic {type(op).__name__} on symbolic terms")
+            return self.opaque(type(op).__name__, a, b)
         try:
             if isinstance(op, ast.Add):
                 return a + b
@@ -367,6 +376,17 @@ class MiniInterp:
         except TypeError:
             raise Unknown("binary operator on these operands")
         raise Unknown(f"operator {type(op).__name__}")
+
+    def opaque(self, op, a, b=None, *more):
+        """uninterpreted term for arithmetic outside the linear fragment; same structure -> same name"""
+        def nm(x):
+            return x.name if isinstance(x, Sym) else repr(x)
+        args = [a] + ([b] if b is not None else []) + list(more)
+        name = f"{op}({', '.join(nm(x) for x in args)})"
+        t = Sym(name)
+        t.fields.update(op=op, a=a, b=b, args=args)
+        self.terms[name] = t
+        return t
 
     def ev(self, n, env, fi):
         self.tick()
@@ -432,6 +452,8 @@ class MiniInterp:
                     return obj[self.key(k) if isinstance(obj, dict) else k]
                 except (KeyError, IndexError, TypeError) as e:
                     raise PyRaise(EXC_OF.get(type(e), "Exception"), n)
+            if isinstance(obj, Sym) and getattr(obj, "tuple_order", None) and isinstance(k, int):
+                return obj.fields[obj.tuple_order[k]]
             if isinstance(obj, Sym) and obj.open:
                 kk = repr(k)
                 if kk not in obj.items:
@@ -521,7 +543,13 @@ class MiniInterp:
             else:
                 raise Unknown("membership in this value")
             return r if isinstance(op, ast.In) else not r
-        if isinstance(a, Sym) or isinstance(b, Sym):
+        if isinstance(a, (Sym, Lin)) or isinstance(b, (Sym, Lin)):
+            if self.hook:
+                r = self.hook(self, "compare", op, (a, b), None, None, None)
+                if r is not NotImplemented:
+                    return r
+            if isinstance(a, Lin) or isinstance(b, Lin):
+                raise Unknown("comparison of symbolic numbers")
             if isinstance(op, ast.Eq):
                 return a is b
             if isinstance(op, ast.NotEq):
@@ -576,6 +604,13 @@ class MiniInterp:
             raise Unknown(f"class attribute {attr}")
         if isinstance(obj, tuple) and obj and obj[0] == "external":
             return ("external", f"{obj[1]}.{attr}")
+        if isinstance(obj, tuple) and obj and obj[0] == "super":
+            _, me, cls_ = obj
+            for b in cls_.bases:
+                m = b.find_method(attr)
+                if m is not None:
+                    return BoundFunc(m, me)
+            return ("method", Sym("ext:super", _open=True), attr)
         t = type(obj)
         if self.hook and t not in SAFE_METHODS:
             r = self.hook(self, "getattr", obj, attr, None, node, fi)
@@ -616,10 +651,21 @@ class MiniInterp:
 
     def ev_call(self, n: ast.Call, env, fi):
         f = self.ev(n.func, env, fi)
-        if any(isinstance(a, ast.Starred) for a in n.args) or any(k.arg is None for k in n.keywords):
-            raise Unknown("star arguments")
-        args = [self.ev(a, env, fi) for a in n.args]
-        kwargs = {k.arg: self.ev(k.value, env, fi) for k in n.keywords}
+        args = []
+        for a in n.args:
+            if isinstance(a, ast.Starred):
+                args.extend(self.iterate(self.ev(a.value, env, fi)))
+            else:
+                args.append(self.ev(a, env, fi))
+        kwargs = {}
+        for k in n.keywords:
+            if k.arg is None:
+                d = self.ev(k.value, env, fi)
+                if not isinstance(d, dict) or not all(isinstance(x, str) for x in d):
+                    raise Unknown("** of a non-dictionary")
+                kwargs.update(d)
+            else:
+                kwargs[k.arg] = self.ev(k.value, env, fi)
         if isinstance(f, Sym) and f.parent is not None:
             f.parent[0].fields.pop(f.parent[1], None)
             f = ("method", f.parent[0], f.parent[1])
@@ -644,6 +690,8 @@ class MiniInterp:
             except (KeyError, IndexError, ValueError, TypeError) as e:
                 raise PyRaise(EXC_OF.get(type(e), "Exception"), n)
         if isinstance(f, tuple) and f and f[0] == "builtin":
+            if f[1] == "super" and not args and fi.cls is not None and "self" in env:
+                return ("super", env["self"], fi.cls)
             return self.builtin(f[1], args, kwargs, n)
         if isinstance(f, tuple) and f and f[0] == "external":
             base = f[1].replace(":", ".").split(".")[-1]
@@ -673,6 +721,8 @@ class MiniInterp:
                 raise Unknown(f"construction of {ci.name}")
             return obj
         names = [f for f, _ in fields]
+        if any(c.is_namedtuple() for c in ci.mro()):
+            obj.tuple_order = names
         if len(args) > len(names):
             raise Unknown(f"too many arguments for {ci.name}")
         for nm, a in zip(names, args):
@@ -745,6 +795,8 @@ class MiniInterp:
                 raise Unknown("next() of a non-iterator")
             if name == "id":
                 return ("id", args[0].uid) if isinstance(args[0], Sym) else ("id", id(args[0]))
+            if name == "super" and not args:
+                raise Unknown("super() outside a method")
             if name == "getattr" and len(args) >= 2 and isinstance(args[1], str):
                 try:
                     return self.getattr(args[0], args[1], None, node)
